@@ -59,6 +59,12 @@ type Ctx struct {
 }
 
 func NewCtx(p *core.Prog, prop, tier string) *Ctx {
+	c := newCtx(p, prop, tier)
+	curGraph = c.G
+	return c
+}
+
+func newCtx(p *core.Prog, prop, tier string) *Ctx {
 	return &Ctx{P: p, G: core.BuildGraph(p), Prop: prop, Tier: tier, Start: time.Now(), byKey: map[string]*Ob{},
 		Funcs: map[string]bool{}, Opaque: map[string]int{}, Extra: map[string]any{}, models: map[string]any{}}
 }
@@ -128,6 +134,7 @@ func (c *Ctx) MustFunc(name string) *core.Func {
 // Explore runs a GEA exploration and accounts for it.
 func (c *Ctx) Explore(name string, typ *ast.FuncType, body *ast.BlockStmt, spec gea.Spec) *gea.Exec {
 	x := gea.New(c.P, name, typ, body, spec)
+	x.InlineCallee = c.inlinePolicy
 	x.Run()
 	if x.Trunc {
 		fail("exploration of %s exceeded %d abstract states", name, x.Limit)
